@@ -4,7 +4,7 @@
    With the argument --classify it prints instead, per case, the marker (S = the regex string is inside
    the Ere.v model, U = outside) of every pattern-setting op, then for the same ops whether the pattern
    (after an optional ~) is accepted by the reader of the documented wildcard grammar, Pat/SimpleParse.v
-   (W) or not (n):   k SSUS WnnW                                                                    *)
+   (W), by the reader of the documented range-list form, Pat/RangeParse.v (R), or by neither (n):   k SSUS WnRW                                                                    *)
 open Pat_model
 
 let rec pos_of_int n = if n = 1 then XH else if n land 1 = 0 then XO (pos_of_int (n lsr 1)) else XI (pos_of_int (n lsr 1))
@@ -53,7 +53,7 @@ let () =
       let gram = Buffer.create 16 in
       let in_grammar (p : n list) (simple : bool) =
         let body = match p with c :: t when int_of_n c = 126 -> t | _ -> p in
-        Buffer.add_char gram (if simple && sparse body <> None then 'W' else 'n') in
+        Buffer.add_char gram (if simple && sparse body <> None then 'W' else if simple && read_ranges p <> None then 'R' else 'n') in
       let bad_marker = ref false in
       let add s = Buffer.add_string out s; Buffer.add_char out ';' in
       let set_pat_op (prior : sm) (p : n list) (simple : bool) (marker : string) (tag : string) =
